@@ -199,6 +199,22 @@ static void sw_case(long id, c12::Rng& rng, bool second_routine)
     c12_mx_b = MX[rng.below(6)];
     c12_cw_a = CW[rng.below(5)];
     c12_cw_b = CW[rng.below(5)];
+    if (id == 1)
+    {
+        // replay of the witness of C12_fp_control_preserved_refuted (same register contents and FP
+        // control words; the addresses are this process's): A runs with MXCSR 0x5F80 / CW 0x0B7F
+        // (round towards +inf), the context that resumes it with 0x1F80 / 0x037F
+        static std::uint64_t const WA[16] = {0, 11, 0, 0, 0, 0, 12, 0, 0, 0, 0, 0, 13, 14, 15, 16};
+        for (int i = 0; i < 16; ++i)
+        {
+            if (i != 4 && i != 5 && i != 7) c12_a_in[i] = WA[i];
+            if (i != 4 && i != 5 && i != 7) c12_b_in[i] = 7;
+        }
+        c12_mx_a = 0x5F80;
+        c12_cw_a = 0x0B7F;
+        c12_mx_b = 0x1F80;
+        c12_cw_b = 0x037F;
+    }
     c12_cell_a_addr = cellA;
     c12_b_reached = 0;
     c12_a_returned = 0;
